@@ -95,7 +95,11 @@ for _ in range(rounds):
             real_get = l._power
             l.get_power = (lambda p: (lambda: p))(real_get)
     captured = state(api)
-    text = ScriptSnapshot().generate(None).text
+    try:
+        text = ScriptSnapshot().generate(None).text
+    except Exception as e:      # the real capture raised: a violation of the property, not a fault of this harness
+        violations.append({'name': 'bounded:snapshot-capture-never-raises', 'what': '%s: %s' % (type(e).__name__, e), 'input': repr(specs)})
+        continue
     scramble(api)
     for l in api.get_lights():
         if type(l) is fake_light.Light:
@@ -110,7 +114,11 @@ for _ in range(rounds):
     if job.program is None:
         violations.append({'name': 'bounded:snapshot-script-always-compiles', 'what': job.compile_errors.strip()[:200], 'input': repr(names)})
         continue
-    job.execute()
+    try:
+        job.execute()
+    except Exception as e:
+        violations.append({'name': 'bounded:snapshot-replay-never-raises', 'what': '%s: %s' % (type(e).__name__, e), 'input': repr(specs)})
+        continue
     after = state(api)
     for n in captured:
         if captured[n] != after[n]:
